@@ -17,16 +17,24 @@ from pathlib import Path
 
 from .. import tlc, passlist, universe as U
 from ..common import Outcome, Violation, WORK, NPROC
-from ..design import Sig, Slc, I, Builder
+from ..design import Sig, Slc, I, Builder, Bund, Anon
 from .. import elabtrace as ET
 
 PID = "C08"
 FAULTS = ["width", "foreign", "arraywidth"]
 
 
-def plant(D, m, fault, repaired=False):
+def plant(D, m, fault, repaired=False, first_top=None):
     D = copy.deepcopy(D)
     md = D["mods"][m]
+    if fault == "cycle":
+        # a circular hierarchy: module m instantiates the top it is (transitively) instantiated by - the scheduler's `Circular` decision
+        if not repaired:
+            tgt = D["mods"][first_top]
+            second = ("q", Sig("w2")) if any(s["n"] == "q" for s in tgt["sigs"]) else ("bp", Bund("ib") if any(b["n"] == "ib" for b in md["bundles"]) else
+                                                                                          Anon(x=Sig("n"), y=Sig("w2")))
+            md["insts"].append(U.inst("zback", first_top, [("p", Sig("p")), second]))
+        return D
     if fault == "width":
         t = Sig("p") if repaired else Sig("w2")
         md["insts"].append(U.inst("bad", "L1", [("a", t)], k="ext"))
@@ -126,8 +134,8 @@ def replay(args):
     first_top = case["first_top"]
     D0 = ET.shape_design(shape)
     fault = src["fault"] if src["type"] == "fault" else None
-    D = plant(D0, m, fault) if fault else D0
-    Drep = plant(D0, m, fault, repaired=True) if fault else D0
+    D = plant(D0, m, fault, first_top=first_top) if fault else D0
+    Drep = plant(D0, m, fault, repaired=True, first_top=first_top) if fault else D0
     bld = Builder(h, D, "proc")
     for name in D["mods"]:
         bld.module(name)
@@ -169,6 +177,8 @@ def replay(args):
                       "fresh_raised": fr, "fresh_sig": fsig, "fresh_digest": fdg, "tops": tops, "full": ET.LAST["full"] if raised else ""})
 
     ch = ET.SHAPES[shape]
+    if fault == "cycle":
+        ch = {k: list(v) + ([first_top] if k == m else []) for k, v in ch.items()}
     call("first", [first_top], mods, D, True, ch)
     # an unrelated design, built from scratch in this process
     other = "chain" if shape != "chain" else "diamond"
@@ -192,7 +202,7 @@ def replay(args):
         h.elab.reset_elaborator()
         state["passes"] = list(default)
         call("retry_default_elaborator", [first_top], mods, D, True, ch)
-    if fault:
+    if fault and fault != "cycle":
         # repair the planted fault on the real objects, then retry
         try:
             bad = mods[m].get("bad")
@@ -377,7 +387,8 @@ def run(tier, seed, replay_file=None):
     rnd = random.Random(seed)
     passes = passlist.write_tla()
     NP = len(passes)
-    for cfg, spec in (("mc/MC_ElabSched_fail.cfg", "mc/MC_ElabSched.tla"), ("mc/MC_GenCache_raise.cfg", "mc/MC_GenCache.tla")):
+    for cfg, spec in (("mc/MC_ElabSched_fail.cfg", "mc/MC_ElabSched.tla"), ("mc/MC_ElabSched_cycle.cfg", "mc/MC_ElabSched.tla"),
+                      ("mc/MC_GenCache_raise.cfg", "mc/MC_GenCache.tla")):
         r = tlc.run(spec, cfg, workers=8, tag="c08mc")
         if r.rc != 0:
             if r.invariant_violated:
@@ -394,7 +405,7 @@ def run(tier, seed, replay_file=None):
             tops = {"chain": "A", "diamond": "A", "shared": "A", "twice": "D"}
             ft = tops[shape]
             for m in sorted(closure(shape, [ft])):
-                srcs = [{"type": "fault", "fault": f} for f in FAULTS]
+                srcs = [{"type": "fault", "fault": f} for f in FAULTS + ["cycle"]]
                 inj = [{"type": "inject_before", "pos": i} for i in range(1, NP + 2)] + [{"type": "inject_in", "pos": i} for i in range(1, NP + 1)]
                 if tier == "quick":
                     inj = rnd.sample(inj, 6)
@@ -443,13 +454,18 @@ def run(tier, seed, replay_file=None):
         st = case.get("source", {}).get("type", "generator")
         o.cover["source_" + st] = o.cover.get("source_" + st, 0) + 1
         feats = ["source_" + st] + (["fault_" + case["source"]["fault"]] if st == "fault" else [])
+        if st == "fault":
+            o.cover[feats[1]] = o.cover.get(feats[1], 0) + 1
+        for e in (traces[i] if i < len(traces) else []):
+            if e["ev"] in ("circular", "refail", "fail"):
+                o.cover["event_" + e["ev"]] = o.cover.get("event_" + e["ev"], 0) + 1
         if i in v1 and not v1[i][0]:
             o.violations.append(Violation(clause="sched:" + v1[i][1], case=case, features=feats, detail=traces[i][-40:] if len(o.violations) < 10 else None))
         if not v2[i][0]:
             o.violations.append(Violation(clause="contract:" + v2[i][1], case=case, features=feats, detail=cs))
     o.distinct_nontrivial = nt
     o.required_cover = ["first_raised", "unrelated_returned", "sharing_without_returned", "retry_raised", "source_fault", "source_inject_before", "source_inject_in",
-                        "source_generator", "repair_retry_raised"]
+                        "source_generator", "repair_retry_raised", "fault_cycle", "event_circular", "event_refail", "event_fail"]
     for i in rnd.sample(range(len(allcases)), 2):
         o.samples.append({"case": allcases[i], "calls": [{k: c[k] for k in ("label", "raised", "sig", "fresh_raised", "tainted")} for c in calls[i]], "verdict": v2[i]})
     return o
